@@ -134,6 +134,10 @@ def check_path(ex, w, handler, result, log, pre, msg_info):
             kv = fld(k, '0')
             conds.append(z3.Or(*[zb(num_cmp('Eq', kv, fld(vcell.v, '0'))) for _, vcell in views.entries]) if views.entries else z3.BoolVal(False))
         need('C16', f'{handler}:{cname}-unbounded', f'{cname} keeps certificates under construction for views no validator is voting in', z3.And(*conds) if conds else z3.BoolVal(True))
+    # ---- C06: local progress obligations (only on paths where the environment cooperates)
+    import sys
+    from props import replica_progress
+    obs += replica_progress.obligations(sys.modules[__name__], ex, w, handler, result, log, pre, msg_info, post)
     return obs
 
 
@@ -250,6 +254,7 @@ def run_one(arg):
     """worker: one handler, one committee size, one preset of the top-level state choices"""
     handler, N, budget = arg[:3]
     mode = arg[3] if len(arg) > 3 else 'full'
+    wanted = set(arg[4]) if len(arg) > 4 and arg[4] else None
     db = _DB[0]
     ex = Exec(db, loop_bound=60)
     holder = [None]
@@ -259,7 +264,7 @@ def run_one(arg):
     def body(ex):
         w = R.World(ex, db, N); holder[0] = w; w.light = (mode == 'caches')
         caches = caches_for(ex, w, handler, N, rich=(mode == 'caches'))
-        w.state(caches, light=(mode == 'caches'))
+        w.state(caches, light=(mode == 'caches')); w.has_cache = bool(caches)
         if handler == 'start_new_view':
             # called by the replica right after it adopted a (verified) certificate of view new_view - 1 >= its view
             if ex.choose(2, 'adopted') == 0:
@@ -290,14 +295,14 @@ def run_one(arg):
             st, m = solve(pc, None)
             if st == 'sat':
                 k = panic_key(val)
-                if k not in seen:
+                if k not in seen and (wanted is None or 'C10' in wanted):
                     seen.add(k); out['viol'].append(dict(prop='C10', key=f'{handler}:{k}', text=f'{handler} panics: {val[0]} at {val[1]}', witness=witness(m)))
             continue
         r, obs, evs, wref, inforef = val
         if 'send' in evs: nontriv += 1
         oc = (str(r)[:40], tuple(evs)); outcomes[oc] = outcomes.get(oc, 0) + 1
         for prop, key, text, cond in obs:
-            if key in seen: continue
+            if key in seen or (wanted is not None and prop not in wanted): continue
             if z3.is_true(z3.simplify(cond)): continue
             st, m = solve(pc, z3.Not(cond))
             if st == 'sat':
@@ -336,6 +341,7 @@ def concretize(m, w, handler, info, N):
     pre = w.pre
     out = dict(handler=handler, N=N, weights=[max(1, iv(x.e)) for x in w.ws], first_block=iv(w.first_block.e),
                pre=dict(view=iv(pre['view']), phase=pre['phase'], hv=rc(pre['hv']), cqc=rc(pre['cqc']), tqc=tq(pre['tqc'])))
+    out['has_cache'] = bool(getattr(w, 'has_cache', False))
     if 'author' in info: out['author'] = info['author']; out['sig_ok'] = bool(iv(info['sig_ok']))
     if handler in ('on_proposal', 'on_new_view'):
         out['just_kind'] = info['just_kind']; out['just'] = rc(info['just']) if info['just_kind'] == 'Commit' else tq(info['just'])
@@ -360,7 +366,7 @@ def run_all(rep, db, tier, props, handlers=('start_timeout', 'start_new_view', '
     _DB[0] = db
     Ns = [2] if tier == 'quick' else [2, 3]
     budget = 1500 if tier == 'quick' else 6000
-    jobs = [(h, N, budget, mode) for N in Ns for h in handlers]
+    jobs = [(h, N, budget, mode, tuple(props)) for N in Ns for h in handlers]
     outs = F.parallel_map(run_one, jobs, workers=min(len(jobs), 12))
     for o in outs:
         if 'stats' in o: F.absorb_stats_dict(rep, o['stats'])
@@ -371,24 +377,24 @@ def run_all(rep, db, tier, props, handlers=('start_timeout', 'start_new_view', '
         rep.nontrivial += o.get('nontrivial', 0)
         for v in mine:
             path = None; repro = None
-            if v.get('replay'):
+            from props import replica_replay
+            if v.get('replay') and (replica_replay.key_class(v['key']) is not None or v['prop'] == 'C10'):
                 try:
-                    from props import replica_replay
                     import replay as RP
                     src = replica_replay.gen(v['replay'], v['key'])
                     rr = RP.run_replay(f'{rep.prop.lower()}_h{len(rep.violations) + len(rep.known_hits)}', src, rustflags='--cfg era_consensus_verif'); rep.replayed += 1
                     path = rr['path']
-                    cls = replica_replay.key_class(v['key'])
+                    cls = 'panic' if v['prop'] == 'C10' else replica_replay.key_class(v['key'])
                     outp = rr['output']
                     hit = (f'[{cls}]' in outp) if cls != 'panic' else ('panicked at' in outp and 'step obligations violated' not in outp)
-                    unforceable = [e for e in v.get('events', []) if e in ('persist_failed', 'env_fail')]
+                    unforceable = [e for e in v.get('events', []) if e in ('persist_failed', 'env_fail')] + (['vote cache'] if v['replay'].get('has_cache') else [])
                     if rr['reproduced'] is True and hit:
                         repro = True; v['text'] += ' | replay: reproduced on the real replica (step API)'
                     elif rr['reproduced'] is None:
                         rep.add(F.Obligation('replay ' + v['key'], 'inconclusive', 'replay harness failed: ' + outp[-1500:]))
                         v['text'] += ' | replay: harness failed to build or run'
                     elif unforceable:
-                        v['text'] += ' | replay: not reproducible by the step replay (the path needs an engine call to fail, which the in-memory engine never does); solver witness only'
+                        v['text'] += ' | replay: not reproducible by the step replay (the path needs an engine call to fail, which the in-memory engine never does, or a non-empty vote cache, which a restart empties); solver witness only'
                     else:
                         repro = False; v['text'] += ' | replay: the real replica did not violate this obligation on the concretised witness'
                 except Exception as ex_:
